@@ -74,6 +74,11 @@ def cases(tier, rng):
     archives = V.check_against_lean([(pc.members(), 0, 0) for pc in pcs], strict=True)
     for pc, arc in zip(pcs, archives):
         yield Case(pc.line(), check=V.pack_check(pc, arc), tag="writer-" + pc.tag)
+    # writer side, inputs the library should refuse (names equal ignoring case): C02 does not demand the refusal (C01 does) —
+    # but WHATEVER the library writes must list its members so that a case-insensitive binary search finds every one of them
+    for c in c01.refusal_cases(tier, rng):
+        if "duplicate" in c.tag:
+            yield Case(c.line, check=written_is_searchable, tag="writer-" + c.tag)
     # reader side
     D = ref_descs(tier, rng)
     encs = V.check_against_lean([(ms, u, s) for ms, u, s, _ in D], strict=False)
@@ -83,6 +88,18 @@ def cases(tier, rng):
         if data is None: continue
         yield Case(f"!vol.open {data} L {ops}", expect=exp, tag=tag)
         yield Case(f"!vol.open {data} F {ops}", expect=exp, tag=tag + "-fresh-object-per-call")
+
+def written_is_searchable(out):
+    """oracle for a pack of any input set: an error is fine; a written archive must be searchable by name"""
+    if not out.startswith("ok "): return None
+    fields = out.split(" ")[4:]
+    try: names = [bytes.fromhex(f.split(":")[0]) for f in fields]
+    except ValueError: return f"unreadable listing {out[:200]!r}"
+    for i, n in enumerate(names):
+        if V.bsearch_ci(names, n) != i:
+            return (f"the library wrote an archive listing {names!r}: a case-insensitive binary search for {n!r} does not find "
+                    f"member {i} (entries are not strictly ascending)")
+    return None
 
 def big_arg(ms, u, s, arc):
     return hexs(arc)      # both drivers take plain hex of any length
